@@ -5,8 +5,12 @@ For every method of `virtualNode`, `virtualQubit`, `simulatedQubit` that takes p
 through a call of another method of its own class) and for the lock-free methods in EXTRA, a term of the
 statement language `SqVerif.Skel.Stmt` is printed: lock operations on ROLES, calls, mutations, guards,
 raises and the control structure around them.  Helper methods are inlined (`scope`), a self-recursive retry
-becomes `loop … cont`.  Whatever the translator does not understand becomes `opaque "<why>"`, on which every
-analysis of Skel.lean fails.
+becomes `loop … cont` -- provided the self-call is in tail position and passes every parameter through unchanged
+(`exclude=exclude`); otherwise it is `opaque`.  `try … except <SomeError>` is `tryExcept` (an exception of the body
+may pass uncaught), `try … except Exception` / a bare `except` is `tryCatch` (none does); a bare `raise` in a
+handler re-raises (`raise .remote`).  Whatever the translator does not understand becomes `opaque "<why>"`, on
+which every analysis of Skel.lean fails.  The translation is validated dynamically by harness/skeltrace.py (trace
+acceptance against the real code).
 
 Pure stdlib.  `generate(repo_root)` rewrites the Lean file only if its content changed."""
 import ast
